@@ -4,6 +4,7 @@ import core
 OPS_F = ["mul_mm", "mul_mv", "mul_vm", "mul_ms", "add_ms", "sub_ms", "div_ms", "add_mm", "sub_mm",
          "mulw_mm", "div_mm", "neg_m", "identity", "zero", "is_zero", "mat2h"]
 OPS_Z = OPS_F + ["rem_mm", "rem_ms"]
+OPS_S = [o for o in OPS_F if not o.startswith("div_")]
 
 
 def key(rec):
@@ -20,23 +21,30 @@ def nontrivial(r):
 
 def run(ctx):
     ctx.rule = ("TLC checks the ring laws (identity, associativity, transpose, bilinearity, adjugate) on the "
-                "specification's MatMul/MatVec/VecMat exhaustively over small fields and on random tuples over "
-                "Z_46337; every record is one real vek call (sizes 2,3,4; layout pairs rr,cc,rc,cr; owned and "
+                "specification's MatMul/MatVec/VecMat as polynomial identities on free symbols (VekPoly), exhaustively "
+                "over small fields and on random tuples over Z_46337; the code is run on matrices of distinct free "
+                "symbols (lane Sym) and every returned polynomial is compared with the specification's (all inputs at once); every record is one real vek call (sizes 2,3,4; layout pairs rr,cc,rc,cr; owned and "
                 "compound-assignment forms; lanes exact-rational, i32, i64, f32, f64) whose projected result TLC "
                 "recomputes from the operands; non-trivial = operand matrix without an all-zero row")
     thorough = ctx.tier == "thorough"
-    cfgs = ["Law_Mat_2x2_P2p", "Law_Mat_2_rand", "Law_Mat_3_rand", "Law_Mat_4_rand"]
+    cfgs = ["Law_Mat_2_S", "Law_Mat_3_S", "Law_Mat_4_S", "Law_Mat_2x2_P2p", "Law_Mat_2_rand", "Law_Mat_3_rand", "Law_Mat_4_rand"]
     if thorough:
         cfgs += ["Law_Mat_2x2_P2", "Law_Mat_2x2_P3", "Law_Mat_3_rand_big", "Law_Mat_4_rand_big"]
     core.law_runs(ctx, "Law_Mat", cfgs)
     n = 400 if thorough else 25
+    # symbolic lane: operands are matrices of distinct free symbols, each recorded result is the polynomial the code
+    # computes for every input; TLC compares it with the specification's polynomial (VekPoly), no sampling
+    core.drive_validate(ctx, "products", "Trace_Mat", "Trace_Mat_S", "products-sym", 3 if thorough else 1, OPS_S, key=key,
+                        extra_args=["--lane", "sym"], corrupt_op="mul_mm", nontrivial=nontrivial)
     core.drive_validate(ctx, "products", "Trace_Mat", "Trace_Mat_F", "products-q", n, OPS_F, key=key,
                         extra_args=["--lane", "q"], corrupt_op="mul_mm", nontrivial=nontrivial)
     core.drive_validate(ctx, "products", "Trace_Mat", "Trace_Mat_Z", "products-z", n, OPS_Z, key=key,
                         extra_args=["--lane", "z"], corrupt_op="mul_vm", nontrivial=nontrivial)
-    ctx.assumptions = ["exact arithmetic: rational operands are compared in the prime field Z_46337 (a wrong rational "
+    ctx.assumptions = ["symbolic lane: vek is generic in T and stable Rust has no specialisation, so the polynomial returned on "
+                       "free symbols is the function computed for every element type (parametricity)",
+                       "exact arithmetic: rational operands are compared in the prime field Z_46337 (a wrong rational "
                        "result is missed only if it agrees with the right one modulo 46337)",
-                       "operands are sampled (seeded), not symbolic: an identity that fails is detected with the "
+                       "the rational and native lanes (i32/i64/f32/f64) are sampled (seeded): an identity that fails is detected with the "
                        "probability that a random point is not a root (Schwartz-Zippel)"]
 
 
